@@ -4,5 +4,6 @@ cd /verif
 git -C /repo apply "$1" || { echo "patch does not apply"; exit 3; }
 ./check "$2" "${3:-quick}"; rc=$?
 git -C /repo checkout -- .
+./check build >/dev/null 2>&1
 echo "mut.sh: $1 on $2 -> exit $rc"
 exit $rc
